@@ -93,6 +93,7 @@ type Ctx struct {
 	cell     []byte
 	cur      atomic.Int64
 	curStart atomic.Int64
+	curCPU   atomic.Int64 // process CPU time (ns) at the last Begin / Heartbeat
 	res      result
 	all      map[uint64]struct{}
 	nt       map[uint64]struct{}
@@ -168,6 +169,7 @@ func (c *Ctx) Begin(desc string) bool {
 	c.sub = 0
 	c.cur.Store(seq)
 	c.curStart.Store(time.Now().UnixNano())
+	c.curCPU.Store(cpuNanos())
 	c.res.Evals++
 	c.curDesc = desc
 	c.all[Hash(desc)] = struct{}{}
@@ -195,7 +197,19 @@ func (c *Ctx) SubBegin(input []byte) bool {
 
 // Heartbeat tells the hang watchdog that the current case is making progress
 // (cases that are whole explorations run for much longer than one input).
-func (c *Ctx) Heartbeat() { c.curStart.Store(time.Now().UnixNano()) }
+func (c *Ctx) Heartbeat() {
+	c.curStart.Store(time.Now().UnixNano())
+	c.curCPU.Store(cpuNanos())
+}
+
+// cpuNanos is the CPU time this process has consumed (user + system).
+func cpuNanos() int64 {
+	var ru syscall.Rusage
+	if syscall.Getrusage(syscall.RUSAGE_SELF, &ru) != nil {
+		return 0
+	}
+	return ru.Utime.Nano() + ru.Stime.Nano()
+}
 
 // Hash returns the FNV-1a hash of s.
 func Hash(s string) uint64 {
@@ -468,7 +482,11 @@ func workerMain(props map[string]*Prop, a []string) {
 	lim.Cur, lim.Max = 12<<30, 12<<30
 	syscall.Setrlimit(syscall.RLIMIT_AS, &lim)
 	debug.SetMaxStack(256 << 20)
-	// watchdog: a case that does not finish is a hang (DESIGN §2 rule 4)
+	// watchdog: a case that does not finish is a hang (DESIGN §2 rule 4). The measure is the CPU
+	// time the worker has burnt since the case began (or last reported progress), not the wall
+	// clock: on a loaded machine a healthy case may wait a long time for a core, and must not
+	// be called a hang for that. A case that is blocked without using any CPU is given ten
+	// times as long on the wall clock.
 	hangAfter := 30 * time.Second
 	if s := os.Getenv("VERIF_HANG_S"); s != "" {
 		if k, err := strconv.Atoi(s); err == nil {
@@ -479,7 +497,9 @@ func workerMain(props map[string]*Prop, a []string) {
 		for {
 			time.Sleep(500 * time.Millisecond)
 			cur, st := c.cur.Load(), c.curStart.Load()
-			if cur >= 0 && st > 0 && time.Since(time.Unix(0, st)) > hangAfter {
+			burnt := time.Duration(cpuNanos() - c.curCPU.Load())
+			waited := time.Since(time.Unix(0, st))
+			if cur >= 0 && st > 0 && (burnt > hangAfter || (waited > 10*hangAfter && burnt < time.Second)) {
 				buf := make([]byte, 1<<20)
 				s1 := PlencFrame(buf[:runtime.Stack(buf, true)])
 				time.Sleep(time.Second)
